@@ -80,7 +80,7 @@ pub fn conform_ht(hs: &HtSpace, p: &P) -> Result<u64, String> {
     for t in 0u64..(1 << n) {
         let mut h = t;
         loop {
-            let idx = h | (t << n);
+            let idx = hs.index(h, t);
             let naive = p.ht(h, t, true);
             if naive != hs.sp.get(&sat, idx) {
                 return Err(format!(
